@@ -63,6 +63,25 @@ theorem no_dependent_of_unfinished_runs (h : Hyp cfg rank) (hs : StartOK cfg (de
   · exact b h1
   · exact c h1
 
+/-- **`rerun_locally_inputs_cached`** (`rerun_exceptions_locally=True`): at the moment the loop sees the failure of `k`,
+every dependency of `k` is still in the scheduler's cache with its denoted value, so the local re-execution
+`data = {dep: state["cache"][dep] for dep in get_dependencies(dsk, key)}; task(data)` cannot raise `KeyError` and runs the
+task on exactly the inputs the worker had - for every completion order (nothing `k` needs was released early). -/
+theorem rerun_locally_inputs_cached (h : Hyp cfg rank) (hs : StartOK cfg (den cfg P rank) st0)
+    (choices : List Nat) (s' : Sys α) (k : Key) (hrun : mainLoop cfg P choices (sys0 st0) = .ok (s', .failed k)) :
+    s'.st.depsOf k = nodeDeps cfg.g k ∧ ∀ d ∈ nodeDeps cfg.g k, s'.st.cache.get? d = some (den cfg P rank d) := by
+  obtain ⟨_, _, _, _, hfailed, _⟩ := reach_inv P (den_fixpoint cfg P rank h) h.nw h.cs rank h.acyclic hs hrun
+  obtain ⟨_, rest', hB, hk⟩ := hfailed k rfl
+  have hrun' : k ∈ s'.st.running := (hB.running k).mp (Or.inr hk)
+  obtain ⟨ds, hds⟩ := (hB.inv.runningTask k hrun').1
+  have hdeps : s'.st.depsOf k = nodeDeps cfg.g k := by
+    rw [depsOf_of_get hds]; exact hB.inv.depsGraph k ds hds
+  refine ⟨hdeps, ?_⟩
+  intro d hd
+  rw [← hdeps] at hd
+  obtain ⟨v, hv⟩ := hB.inv.dep_cached (Or.inr hrun') hd
+  rw [hv, hB.sound d v hv]
+
 /-- **`no_hang`**: whatever fails and whenever, the loop never waits on an empty queue and never raises an
 internal error; it ends (done or failed) within `#visited keys` iterations -/
 theorem no_hang (h : Hyp cfg rank) (hs : StartOK cfg (den cfg P rank) st0) (choices : List Nat) :
@@ -131,6 +150,11 @@ theorem no_dependent_of_failed_runs_full (choices : List Nat) (s' : Sys α) (k :
     j ∉ preKeys s'.log ∧ j ∉ s'.st.ready ∧ j ∉ s'.st.running ∧ j ∉ s'.st.finished :=
   no_dependent_of_failed_runs h (C01.startOK_of_eq h hG hst) choices s' k hrun j hj
 
+theorem rerun_locally_inputs_cached_full (choices : List Nat) (s' : Sys α) (k : Key)
+    (hrun : mainLoop cfg P choices (sys0 st0) = .ok (s', .failed k)) :
+    s'.st.depsOf k = nodeDeps cfg.g k ∧ ∀ d ∈ nodeDeps cfg.g k, s'.st.cache.get? d = some (den cfg P rank d) :=
+  rerun_locally_inputs_cached h (C01.startOK_of_eq h hG hst) choices s' k hrun
+
 theorem finish_cb_exactly_once_full (choices : List Nat) :
     ∃ l st b, (getAsync cfg P choices).log = l ++ [(Ev.finish b, st)] ∧ (∀ e ∈ l, isFinish e = false) ∧
       (b = false ↔ (getAsync cfg P choices).outcome = .ok .done) :=
@@ -152,5 +176,7 @@ example : outcomeOf (getAsync (C01.exCfg 1) exFail [1, 0, 0]) = some (.failed 2)
 /-- the join `3` is never fired, and the last event is `finish true` -/
 example : preKeys (getAsync (C01.exCfg 1) exFail [0, 0, 0]).log = [1, 2] := by decide
 example : ((getAsync (C01.exCfg 1) exFail [0, 0, 0]).log.map (·.1)).getLast? = some (Ev.finish true) := by decide
+/-- …and the input `0` of the failed task `2` is still cached when the failure is seen (`rerun_locally_inputs_cached`) -/
+example : (getAsync (C01.exCfg 1) exFail [0, 0, 0]).final.cache.get? 0 = some 7 := by decide
 
 end Dask.C04
